@@ -45,12 +45,17 @@ def main() -> None:
         path = os.path.join(lean, 'Audit', pid + '.lean')
         old = open(path).read() if os.path.exists(path) else ''
         # keep hand-added entries (tie theorems from Proofs/ modules, extra imports)
+        spaces = {x.split()[-1].rsplit('.', 1)[0] + '.' for x in lines if x.startswith('#print axioms')}
         for ln in old.split('\n'):
             ln = ln.strip()
             if ln and ln not in lines:
                 if ln.startswith('import '):
                     lines.insert(0, ln)
                 elif ln.startswith('#print axioms'):
+                    # a theorem that used to live in one of the regenerated Properties namespaces and is gone was removed/renamed
+                    nm = ln.split()[-1]
+                    if any(nm.startswith(sp) and nm[len(sp):].count('.') == 0 for sp in spaces):
+                        continue
                     lines.append(ln)
         imports = [x for x in lines if x.startswith('import ')]
         lines = sorted(set(imports), key=imports.index) + [x for x in lines if not x.startswith('import ')]
